@@ -13,6 +13,10 @@ def sh(cmd, cwd=None, timeout=3000):
     p = subprocess.run(cmd, shell=True, cwd=cwd, env=env, capture_output=True, text=True, timeout=timeout)
     return p.returncode, p.stdout + p.stderr
 assert sh("git -C /repo status --porcelain")[1].strip() == "", "/repo not clean"
+# evidence files must describe clean-tree runs only: keep them aside while the seeded tree is checked
+EVB = os.path.join(V, "_build", "evidence.keep")
+shutil.rmtree(EVB, ignore_errors=True)
+shutil.copytree(os.path.join(V, "evidence"), EVB)
 rc, out = sh("git -C /repo apply %s" % os.path.join(d, "patch.diff"))
 res = {"applied": rc == 0, "apply_out": out[-400:], "checks": {}}
 try:
@@ -30,6 +34,9 @@ try:
 finally:
     sh("git -C /repo checkout -- .")
     sh("rm -f /repo/zz_seed_demo_test.go")
+    shutil.rmtree(os.path.join(V, "evidence"), ignore_errors=True)
+    shutil.copytree(EVB, os.path.join(V, "evidence"))
+    shutil.rmtree(EVB, ignore_errors=True)
 res["caught_by"] = [p for p, r in res["checks"].items() if r["exit"] != 0 and r["violations"]]
 prev = {}
 rp = os.path.join(d, "result.json")
